@@ -426,6 +426,7 @@ vc_thread_init(void)
         sigaction(SIGBUS, &sa, NULL);
         sigaction(SIGILL, &sa, NULL);
         sigaction(SIGFPE, &sa, NULL);
+        sigaction(SIGABRT, &sa, NULL); /* a live assert() inside the library (lib_debug / autotools builds): fault 6, not a dead driver */
 }
 
 #define MAXREG 200
